@@ -90,6 +90,9 @@ NoFault == [kind |-> "none", n |-> 0, i |-> 0, delta |-> 0]
 Truncate(n) == [kind |-> "truncate", n |-> n, i |-> 0, delta |-> 0]
 CorruptLen(i, d) == [kind |-> "corruptlen", n |-> 0, i |-> i, delta |-> d]
 Absent == [kind |-> "absent", n |-> 0, i |-> 0, delta |-> 0]
+\* the original-size field of entry i (meaningful for packed entries only; all entries here are stored) is changed:
+\* the archive is as intact as before - no reader decision may depend on that field
+CorruptOrig(i, d) == [kind |-> "corruptorig", n |-> 0, i |-> i, delta |-> d]
 
 FileLen(a, f) == IF f.kind = "truncate" THEN f.n ELSE IF f.kind = "absent" THEN 0 ELSE Total(a)
 Inside(r, len) == r.end <= len
@@ -132,6 +135,7 @@ FaultClass(a, f) ==
     IF f.kind = "none" THEN "None"
     ELSE IF f.kind = "absent" THEN "Absent"
     ELSE IF f.kind = "truncate" THEN "Truncate." \o PhaseAt(a, f.n)
+    ELSE IF f.kind = "corruptorig" THEN "CorruptOrig"
     ELSE IF Overrun(a, f) THEN "CorruptLen.overrun" ELSE "CorruptLen.inbounds"
 
 \* ---------------------------------------------------------------------------
